@@ -39,7 +39,7 @@ SCHEMES = [b"s:http|", b"s:https|", b"s:http|", b"s:https|", b"s:ftp|"]
 PORTS = [b"", b"", b"", b"t:80|", b"t:8080|"]
 TLD = [b"h:com|", b"h:org|", b"h:fr|"]
 HOSTS = [b"h:a|", b"h:b|", b"h:c|", b"h:www|", b"h:a|", b"h:www|"]
-SPECIAL_HOSTS = [b"h:localhost|", b"h:10.0.0.1|"]
+SPECIAL_HOSTS = [b"h:localhost|", b"h:10.0.0.1|", b"h:LOCALHOST|", b"h:[2001:DB8::1]|"]
 PATHS = [b"p:x|", b"p:y|", b"p:z|", b"p:w|", b"p:{|", b"p:~|", b"p:\x00|", b"p:\xff|", b"q:a=1|", b"f:top|", b"p:s:http|", b"p:h:www|"]
 
 
@@ -206,6 +206,7 @@ DEFAULT_WEIGHTS = {
     "create": 3, "delete": 1, "addp": 2, "rmp": 1, "mvp": 1,
     "rule": 1, "rmrule": 1, "reopen": 1, "clear": 0.6,
     "bad_delete": 0.5, "bad_rmp": 0.4, "bad_mvp": 0.3, "overwrite_open": 0.3,
+    "bystander": 0.3, "addp_foreign": 0.3,
 }
 
 
@@ -381,6 +382,18 @@ def gen_history(rng, cfg, pool, text, nops, weights=None, allow_uncrawled_pages=
                     continue
                 m.ins(p)
             ops.append({"op": k, "prefix": p, "of": other})
+        elif k == "bystander":
+            # another index comes to life in the same process and stays open (it must not interfere)
+            ops.append({"op": "bystander", "pages": [pick() for _ in range(rng.randint(0, 3))], "memory": rng.random() < 0.6})
+        elif k == "addp_foreign":
+            # a prefix attached to an id chosen by the caller, larger than any id the index generated
+            p = some_prefix(rng, pick(), 1, 5)
+            if p in m.we:
+                continue
+            fid = 5000 + rng.randrange(50)
+            ops.append({"op": "addp_foreign", "prefix": p, "id": fid})
+            m.ins(p)
+            m.we[p] = -fid  # model id of a caller-chosen webentity id
         elif k == "overwrite_open" and cfg["backend"] == "file":
             # the folder opened again with overwrite=True: a new, empty index with the given rules
             newrules = []
